@@ -196,7 +196,8 @@ def demoTable : Versions := fun k =>
   if k = 1 then some { approvedUpgradeVersion := 2, upgradeVoteRounds := 3, upgradeThreshold := 2, minUpgradeWaitRounds := 1, maxUpgradeWaitRounds := 4 }
   else if k = 2 then some { upgradeVoteRounds := 3, upgradeThreshold := 2, minUpgradeWaitRounds := 1, maxUpgradeWaitRounds := 4 } else none
 
-example : ParamsOK demoTable := by
+/-- (demonstration instance used by the `example`s below, not a property theorem) -/
+theorem demoTable_ok : ParamsOK demoTable := by
   intro k P h
   unfold demoTable at h
   split at h
@@ -214,7 +215,8 @@ def demoChain : List Hdr := [
   { number := 1, currVersion := 1, nextVersion := 2, nextApprovals := 1, nextVoteBefore := 4, nextSwitchOn := 5 },
   { number := 0, currVersion := 1 }]
 
-example : ValidChain demoTable demoChain := by
+/-- (demonstration instance used by the `example`s below, not a property theorem) -/
+theorem demoChain_valid : ValidChain demoTable demoChain := by
   unfold demoChain
   repeat (first
     | exact ValidChain.start _ (by simp [Clean]) (by decide) (by decide)
@@ -267,6 +269,65 @@ theorem params_version_changes_only_after_switch (V : Versions) (get : Nat → O
     rw [hp] at hc; cases hc
     exact absurd (hpv.symm.trans hcv) hne
 
+/-- **The parameters in force change only after a switch that had its quorum.**  Composition of the two chain theorems:
+over a stored `ValidChain` (newest first; the canonical index is its reverse), if the version answered by
+`VersionForRound` for round `r+1` differs from the one for round `r`, then the chain contains the switch block `c` on
+top of its parent `p` (`hs = pre ++ c :: p :: rest`), the old and new answers are exactly `p`'s and `c`'s versions, `c`
+sits on the round and carries the version `p` announced, and that proposal collected at least `UpgradeThreshold`
+approvals from distinct blocks inside its voting window and waited at least `MinUpgradeWaitRounds`. -/
+theorem params_switch_had_quorum {V : Versions} (hV : ParamsOK V) {hs : List Hdr} (hc : ValidChain V hs)
+    (r v v' : Nat)
+    (h1 : versionForRound V (fun n => hs.reverse[n]?) [] r = .ok v)
+    (h2 : versionForRound V (fun n => hs.reverse[n]?) [] (r + 1) = .ok v') (hne : v ≠ v') :
+    ∃ c p rest P, (∃ pre, hs = pre ++ c :: p :: rest) ∧ V p.currVersion = some P ∧
+      v = p.currVersion ∧ v' = c.currVersion ∧ c.currVersion = p.nextVersion ∧ c.number = p.nextSwitchOn ∧
+      p.nextApprovals = (approvers (p :: rest)).length ∧ (approvers (p :: rest)).Nodup ∧
+      (∀ a ∈ approvers (p :: rest), openedAt (p :: rest) ≤ a ∧ a < p.nextVoteBefore) ∧
+      P.upgradeThreshold ≤ (approvers (p :: rest)).length ∧
+      p.nextVoteBefore + P.minUpgradeWaitRounds ≤ c.number := by
+  obtain ⟨_, p, c, hp, hcc, hvp, hvc, _, _, _⟩ :=
+    params_version_changes_only_after_switch V _ (canonLinked_of_validChain hc) r v v' h1 h2 hne
+  have hp : hs.reverse[r - Gen.protocolRoundBack]? = some p := hp
+  have hcc : hs.reverse[r + 1 - Gen.protocolRoundBack]? = some c := hcc
+  -- positions in the newest-first list
+  have hlt : r + 1 - Gen.protocolRoundBack < hs.length := by
+    have := (List.getElem?_eq_some_iff.1 hcc).1
+    simpa using this
+  have hlt0 : r - Gen.protocolRoundBack < hs.length := by
+    have := (List.getElem?_eq_some_iff.1 hp).1
+    simpa using this
+  by_cases hr : Gen.protocolRoundBack ≤ r
+  · have e1 : r + 1 - Gen.protocolRoundBack = (r - Gen.protocolRoundBack) + 1 := by omega
+    rw [e1] at hcc hlt
+    rw [List.getElem?_reverse hlt0] at hp
+    rw [List.getElem?_reverse hlt] at hcc
+    let k := hs.length - 1 - (r - Gen.protocolRoundBack + 1)
+    have hk : k < hs.length := by omega
+    have hk1 : k + 1 < hs.length := by omega
+    have ep : hs.length - 1 - (r - Gen.protocolRoundBack) = k + 1 := by omega
+    rw [ep] at hp
+    have hck : hs[k]? = some c := hcc
+    have hcv : hs[k] = c := by
+      have := List.getElem?_eq_getElem hk; rw [this] at hck; exact Option.some.inj hck
+    have hpv : hs[k + 1] = p := by
+      have := List.getElem?_eq_getElem hk1; rw [this] at hp; exact Option.some.inj hp
+    have hdrop : hs.drop k = c :: p :: hs.drop (k + 2) := by
+      rw [List.drop_eq_getElem_cons hk, List.drop_eq_getElem_cons hk1, hcv, hpv]
+    have hvc' : ValidChain V (c :: p :: hs.drop (k + 2)) := by
+      rw [← hdrop]; exact validChain_drop hc k hk
+    have hchg : c.currVersion ≠ p.currVersion := by
+      rw [← hvp, ← hvc]; exact fun e => hne e.symm
+    obtain ⟨P, hP, _, h3, h4, h5, h6, h7, _, h9, h10⟩ := switch_needs_quorum_in_window hV hvc' hchg
+    refine ⟨c, p, hs.drop (k + 2), P, ⟨hs.take k, ?_⟩, hP, hvp, hvc, h3, h4, h5, h6, h7, h9, h10⟩
+    rw [← hdrop, List.take_append_drop]
+  · -- both rounds read header 0: same version
+    exfalso
+    have e0 : r - Gen.protocolRoundBack = 0 := by omega
+    have e1 : r + 1 - Gen.protocolRoundBack = 0 := by omega
+    rw [e0] at hp; rw [e1] at hcc
+    rw [hp] at hcc; cases hcc
+    exact hne (hvp.trans hvc.symm)
+
 /-- A batch's own headers are only a fallback: when the canonical index knows the deciding round, the `parents`
 argument cannot change the answer (an import batch cannot override the stored chain). -/
 theorem versionForRound_canonical_first (V : Versions) (get : Nat → Option Hdr) (parents : List Hdr) (r : Nat) (h : Hdr)
@@ -301,6 +362,14 @@ example : CanonLinked demoTable (fun n => demoChain.reverse[n]?) :=
 
 example : (List.range 14).map (fun r => versionForRound demoTable (fun n => demoChain.reverse[n]?) [] r) =
     (List.replicate 13 (.ok 1)) ++ [.ok 2] := by decide
+
+/-- `params_switch_had_quorum` instantiated on `demoChain`: the answers for rounds 12 and 13 differ (1 → 2) -/
+example : ∃ c p rest P, (∃ pre, demoChain = pre ++ c :: p :: rest) ∧ demoTable p.currVersion = some P ∧
+    1 = p.currVersion ∧ 2 = c.currVersion ∧ c.currVersion = p.nextVersion ∧ c.number = p.nextSwitchOn ∧
+    p.nextApprovals = (approvers (p :: rest)).length ∧ (approvers (p :: rest)).Nodup ∧
+    (∀ a ∈ approvers (p :: rest), openedAt (p :: rest) ≤ a ∧ a < p.nextVoteBefore) ∧
+    P.upgradeThreshold ≤ (approvers (p :: rest)).length ∧ p.nextVoteBefore + P.minUpgradeWaitRounds ≤ c.number :=
+  params_switch_had_quorum demoTable_ok demoChain_valid 12 1 2 (by decide) (by decide) (by decide)
 
 /-- crash is reachable outside that guard (a caller asking far beyond its batch): Go panics there -/
 example : versionForRound demoTable (fun _ => none) [{ number := 2, currVersion := 1 }] 12 = .crash := by decide
